@@ -18,7 +18,7 @@ func init() {
 	register(&Check{
 		ID: "C08", Level: "exploration", Primary: "cells", EvalCount: "connections_checked",
 		Rule: "matrix: connection endings {client FIN, client RST, Unbind, malformed frame, unsupported operation, mid-frame disconnect, read-timeout expiry, recovered panic in an inline (unbind-route) handler, " +
-			"recovered panic in a request-goroutine handler followed by FIN, server Stop} x in-flight states {no handler, k handlers parked on a harness gate, handlers writing large responses} x transports {plain, TLS listener, " +
+			"recovered panic in a request-goroutine handler followed by FIN, server Stop} x in-flight states {no handler, k handlers parked on a harness gate, handlers writing large responses, slow requests sent in the same write as the ending (dispatched just before the connection ends)} x transports {plain, TLS listener, " +
 			"StartTLS-upgraded}; every connection first makes one verified round trip (this maps the client socket to its ConnectionID). For endings where the client stays connected the gate is opened only after the " +
 			"client has watched its socket for a grace period: an EOF seen before the release is a certain violation. Offline oracle over the event log per connection ID: exactly one OnClose, stamped after " +
 			"the exit of every handler of that connection; at quiescence no goroutine with a gldap frame and no socket descriptor remain. distinct_nontrivial = distinct (ending, in-flight, transport) cells exercised",
@@ -26,7 +26,7 @@ func init() {
 		Phases: func(tier string, seed int64) []Phase {
 			return []Phase{{Name: "matrix", Run: c08Run}}
 		},
-		MinObserved: []string{"connections_checked", "onclose_events", "handler_exits_recorded", "eof_withheld_until_release_observed"},
+		MinObserved: []string{"connections_checked", "onclose_events", "handler_exits_recorded", "eof_withheld_until_release_observed", "just_dispatched_endings_checked"},
 	})
 }
 
@@ -78,6 +78,8 @@ func (wd *c08World) register(m *gldap.Mux) {
 		switch parts[1] {
 		case "park":
 			<-t.gate
+		case "slow":
+			time.Sleep(60 * time.Millisecond)
 		case "write":
 			n := wd.writeEntries
 			if n == 0 {
@@ -109,7 +111,7 @@ func (wd *c08World) register(m *gldap.Mux) {
 }
 
 var c08Endings = []string{"fin", "rst", "unbind", "malformed", "unsupported", "midframe", "readtimeout", "panic-inline", "panic-goroutine+fin", "stop"}
-var c08Inflight = []string{"none", "parked", "writing"}
+var c08Inflight = []string{"none", "parked", "writing", "just-dispatched"}
 var c08Transports = []string{"plain", "tls", "starttls"}
 
 type c08Cell struct{ Ending, Inflight, Transport string }
@@ -200,10 +202,20 @@ func c08OneCell(c *Ctx, wd *c08World, srv *Srv, cell c08Cell, stopper func()) {
 			cl.Send(c08Search(int64(10+i), tag+";write"))
 		}
 	}
-	for dl := time.Now().Add(patience); t.entered.Load() < int64(1+k) && time.Now().Before(dl); {
+	// just-dispatched: slow requests and the ending leave in ONE write (same segment); the connection ends
+	// while the request goroutines may not even have started
+	var pre []byte
+	just := cell.Inflight == "just-dispatched"
+	if just {
+		k = 2
+		for i := 0; i < k; i++ {
+			pre = append(pre, c08Search(int64(10+i), tag+";slow")...)
+		}
+	}
+	for dl := time.Now().Add(patience); !just && t.entered.Load() < int64(1+k) && time.Now().Before(dl); {
 		time.Sleep(100 * time.Microsecond)
 	}
-	if t.entered.Load() < int64(1+k) {
+	if !just && t.entered.Load() < int64(1+k) {
 		c.Inconclusive(fmt.Sprintf("%v: in-flight handlers did not start", cell))
 		close(t.gate)
 		return
@@ -215,32 +227,45 @@ func c08OneCell(c *Ctx, wd *c08World, srv *Srv, cell c08Cell, stopper func()) {
 	clientStays := true
 	switch cell.Ending {
 	case "fin":
+		if just {
+			cl.Send(pre)
+		}
 		closeWrite(cn)
 	case "rst":
+		if just {
+			cl.Send(pre)
+			time.Sleep(time.Millisecond) // let the frames reach the server before the reset discards them
+		}
 		hardReset(cn)
 		clientStays = false
 	case "unbind":
-		cl.Send(sber.Message(90, sber.UnbindRequest(), nil).Encode())
+		cl.Send(append(pre, sber.Message(90, sber.UnbindRequest(), nil).Encode()...))
 	case "malformed":
-		cl.Send([]byte{0x30, 0x03, 0x02, 0x01, 0x01, 0xff, 0xff})
+		cl.Send(append(pre, 0x30, 0x03, 0x02, 0x01, 0x01, 0xff, 0xff))
 	case "unsupported":
-		cl.Send(sber.Message(91, sber.Cons(sber.Application, 14, sber.Str("cn=a"), sber.Seq(sber.Str("a"), sber.Str("b"))), nil).Encode())
+		cl.Send(append(pre, sber.Message(91, sber.Cons(sber.Application, 14, sber.Str("cn=a"), sber.Seq(sber.Str("a"), sber.Str("b"))), nil).Encode()...))
 	case "midframe":
 		f := c08Search(92, tag+";quick")
-		cl.Send(f[:len(f)/2])
+		cl.Send(append(pre, f[:len(f)/2]...))
 		closeWrite(cn)
 	case "readtimeout":
 		// the server's absolute read deadline expires on its own
+		if just {
+			cl.Send(pre)
+		}
 	case "panic-inline":
 		wd.panicUnbind.Store(connID, true)
-		cl.Send(sber.Message(93, sber.UnbindRequest(), nil).Encode())
+		cl.Send(append(pre, sber.Message(93, sber.UnbindRequest(), nil).Encode()...))
 	case "panic-goroutine+fin":
-		cl.Send(c08Search(94, tag+";panic"))
+		cl.Send(append(pre, c08Search(94, tag+";panic")...))
 		for dl := time.Now().Add(patience); t.entered.Load() < int64(2+k) && time.Now().Before(dl); {
 			time.Sleep(100 * time.Microsecond)
 		}
 		closeWrite(cn)
 	case "stop":
+		if just {
+			cl.Send(pre)
+		}
 		stopper()
 	}
 	triggerSeq := nextSeq()
@@ -278,6 +303,21 @@ func c08OneCell(c *Ctx, wd *c08World, srv *Srv, cell c08Cell, stopper func()) {
 			gotEOF = !isTimeout(err)
 			break
 		}
+	}
+	eofSeq := nextSeq()
+	if just {
+		// the request goroutines were possibly not even scheduled when the connection ended: give them time to show up
+		wait := patience
+		if cell.Ending == "rst" {
+			wait = time.Second // a reset may discard frames the server has not read yet: they never show up
+		}
+		for dl := time.Now().Add(wait); t.entered.Load() < int64(1+k) && time.Now().Before(dl); {
+			time.Sleep(200 * time.Microsecond)
+		}
+		if cell.Ending == "rst" && t.entered.Load() < int64(1+k) {
+			k = int(t.entered.Load()) - 1 // the reset may have discarded unread frames
+		}
+		time.Sleep(80 * time.Millisecond) // slow handlers (60ms) finish
 	}
 	// 5. wait for this connection's OnClose (patience), then judge
 	var mine []closeEv
@@ -319,6 +359,15 @@ func c08OneCell(c *Ctx, wd *c08World, srv *Srv, cell c08Cell, stopper func()) {
 	}
 	t.mu.Lock()
 	defer t.mu.Unlock()
+	if just && clientStays && gotEOF {
+		for _, h := range t.handlers {
+			if h.Exit == 0 || h.Exit > eofSeq {
+				c.Violate("socket closed before the connection's handlers returned", fmt.Sprintf("%v: the client saw the connection end (stamp %d) while a handler dispatched just before the ending had not returned yet (exit stamp %d)", cell, eofSeq, h.Exit), det)
+				break
+			}
+		}
+		c.Count("just_dispatched_endings_checked", 1)
+	}
 	for _, h := range t.handlers {
 		c.Count("handler_exits_recorded", 1)
 		if h.Exit == 0 || h.Exit > mine[0].Enter {
